@@ -24,6 +24,7 @@ EXPLANATION = [
     'looked up by the CID of the credit packet.',
     'C07.ctor-slots: negotiated parameters flow into the right constructor '
     'parameters and the values announced to the peer equal the values stored.',
+    'C07.drain-point: write() clears the `drained` event on every path that queues data (unless the path has established that both the queue and the SDU in progress are empty), process_output sets it only under `out_sdu is None` and an empty queue, and drain() awaits exactly that event: drain() cannot complete while part of a written SDU is unsent.',
     'Not decided: stream equality and progress for all write patterns (runtime).',
 ]
 ASSUMPTIONS = ['asyncio callbacks run to completion (no pre-emption between statements without await)']
@@ -269,6 +270,81 @@ def ctor_slots(ctx):
         R.check(good, rule, f'{LE}.connect | request fields', 'request announces our psm/source_cid/mtu/mps and the credits we grant (peer_credits)', 'connection request fields do not match the channel attributes', p.loc(con))
 
 
+def drain_point(ctx):
+    """drain() is the completion point of a transfer: `drained` is cleared by every write that queues data and
+    set only where nothing is left to send (output queue empty and no partially sent SDU)."""
+    R, p = ctx.r, ctx.p
+    rule = 'C07.drain-point'
+    w = p.find(f'{LE}.write')
+    po = p.find(f'{LE}.process_output')
+    dr = p.find(f'{LE}.drain')
+    if w is None or po is None or dr is None:
+        R.bad(rule, f'{LE}.write/process_output/drain', 'anchor missing')
+        return
+    W = namedtuple('W', 'queued cleared q_empty sdu_none')
+
+    class WD(paths.Domain):
+        def event(self, node, v):
+            if isinstance(node, ast.Call):
+                d = dotted(node.func) or ''
+                if d in ('self.out_queue.append', 'self.out_queue.appendleft', 'self.out_queue.extend'):
+                    return (v._replace(queued=True, q_empty=False),)
+                if d == 'self.drained.clear':
+                    return (v._replace(cleared=True),)
+                if d == 'self.process_output':
+                    # may send, may not (credits): forgets what was known about the queue, keeps `cleared`
+                    # (process_output sets the event itself, and only when nothing is left: checked below)
+                    return (v._replace(q_empty=False, sdu_none=False),)
+            return (v,)
+
+        def assume(self, atom, truth, v):
+            t = norm(atom)
+            if t in ('self.out_queue', 'len(self.out_queue) > 0', 'len(self.out_queue) != 0'):
+                return (v._replace(q_empty=not truth),)
+            if t in ('self.out_sdu is None',):
+                return (v._replace(sdu_none=truth),)
+            if t in ('self.out_sdu is not None', 'self.out_sdu'):
+                return (v._replace(sdu_none=not truth),)
+            return (v,)
+    res = paths.run(w, WD(), W(False, False, False, False))
+    bad = sorted({f'{k}: queued without clearing `drained`' + ('' if not v.q_empty else ' (only the queue, not the SDU in progress, is known to be empty)') for k, st in res.items() if not k.startswith('raise') for v in st if v.queued and not v.cleared and not (v.q_empty and v.sdu_none)})
+    queued_any = any(v.queued for st in res.values() for v in st)
+    R.check(queued_any and not bad, rule, f'{LE}.write | clears drained', 'every path that queues data clears `drained` (or has established that neither queued data nor a partial SDU remains)',
+            'a write can leave `drained` set while part of the data is still unsent (credits ran out in the middle of the SDU): drain() returns at once and a following disconnect() cuts the transfer short', p.loc(w), bad[:3])
+
+    # process_output: drained.set() only where out_sdu is None and the queue is empty
+    S = namedtuple('S', 'q_empty sdu_none')
+    viol = []
+
+    class PD(paths.Domain):
+        def event(self, node, v):
+            if isinstance(node, ast.Call) and dotted(node.func) == 'self.drained.set' and not (v.q_empty and v.sdu_none):
+                viol.append(node.lineno)
+            if isinstance(node, ast.Assign) and dotted(node.targets[0]) == 'self.out_sdu':
+                return (v._replace(sdu_none=norm(node.value) == 'None'),)
+            return (v,)
+
+        def assume(self, atom, truth, v):
+            t = norm(atom)
+            if t == 'self.out_queue':
+                return (v._replace(q_empty=not truth),)
+            if t == 'self.out_sdu is None':
+                return (v._replace(sdu_none=truth),)
+            if t == 'self.out_sdu is not None':
+                return (v._replace(sdu_none=not truth),)
+            return (v,)
+    loops = [n for n in po.body if isinstance(n, ast.While)]
+    sets = [c for c in calls_in(po) if dotted(c.func) == 'self.drained.set']
+    if len(loops) == 1 and sets:
+        paths.run_block(loops[0].body, PD(), S(False, False))
+        outside = [c for c in sets if not any(c is x for x in ast.walk(loops[0]))]
+        R.check(not viol and not outside, rule, f'{LE}.process_output | sets drained only when idle', f'{len(sets)} set site(s), each under `out_sdu is None` and an empty queue',
+                f'`drained` is set (line {sorted(set(viol)) + [c.lineno for c in outside]}) where a partially sent SDU or queued data may remain: drain() completes early', p.loc(po))
+    else:
+        R.bad(rule, f'{LE}.process_output | sets drained only when idle', f'shape not recognised: {len(loops)} top-level loop(s), {len(sets)} set site(s)', p.loc(po))
+    R.check(norm(dr.body[-1]) == 'await self.drained.wait()' and sum(1 for x in ast.walk(dr) if isinstance(x, ast.Await)) == 1, rule, f'{LE}.drain', 'drain() waits for the `drained` event', 'drain() no longer waits for the drained event', p.loc(dr))
+
+
 def cid_alloc(ctx):
     from . import c09
     c09.cid_alloc(ctx, rule='C07.cid-alloc')
@@ -281,6 +357,7 @@ RULES = [
     ('C07.credit-return', credit_return),
     ('C07.key', key),
     ('C07.ctor-slots', ctor_slots),
+    ('C07.drain-point', drain_point),
 ]
 
 VARIANTS = [
